@@ -535,7 +535,7 @@ func (d *Downstream) resume(parentConn *Conn) error {
 	if !d.state.Is(streamStatusResuming) {
 		return fmt.Errorf("invalid state want[%v] but[%v]", streamStatusResuming, d.state)
 	}
-	d.wireConn = parentConn.wireConn
+	d.wireConn = parentConn.currentWireConn()
 
 	var resErr error
 	retry.Do(func() (end bool) {
